@@ -37,6 +37,8 @@ type stats struct {
 
 var st = &stats{Kinds: map[string]int{}}
 
+var outDirG = "."
+
 func splitCases(r *sim.Rng, n int, cw *sim.CaseWriter) {
 	add := func(lim, ln int) {
 		buf := bytes.Repeat([]byte{7}, ln)
@@ -61,8 +63,59 @@ func splitCases(r *sim.Rng, n int, cw *sim.CaseWriter) {
 	}
 }
 
+// overflowCase: the consumer of a topic has fallen behind: the inbox of the topic is full, further messages are dropped ("or not
+// at all"). After the consumer has caught up, the next message must arrive alone and whole - nothing of the dropped ones in it.
+func overflowCase(r *sim.Rng, nd node, outDir string) {
+	streams := nd.VerifNewStreams()
+	topic := lib.Topic(r.Intn(3))
+	s := streams[topic]
+	if s == nil {
+		return
+	}
+	s.Drain()
+	capacity := s.InboxCap()
+	extra := 1 + r.Intn(3)
+	for i := 0; i < capacity+extra; i++ {
+		msg := []byte(fmt.Sprintf("m%06d", i))
+		if r.Chance(20) { // two packets
+			_, _ = s.HandlePacketNoDrain(topic, false, msg[:3])
+			_, _ = s.HandlePacketNoDrain(topic, true, msg[3:])
+		} else {
+			_, _ = s.HandlePacketNoDrain(topic, true, msg)
+		}
+	}
+	got := s.Drain()
+	bad := len(got) > capacity
+	for i, g := range got {
+		if string(g) != fmt.Sprintf("m%06d", i) {
+			bad = true
+		}
+	}
+	want := []byte("the-message-after-the-consumer-caught-up")
+	_, _ = s.HandlePacketNoDrain(topic, false, want[:10])
+	_, _ = s.HandlePacketNoDrain(topic, true, want[10:])
+	after := s.Drain()
+	if bad || len(after) != 1 || string(after[0]) != string(want) {
+		var show string
+		if len(after) > 0 {
+			show = string(after[0])
+			if len(show) > 120 {
+				show = show[:120]
+			}
+		}
+		sim.Direct(outDir, map[string]any{"finding": "message-merged-after-inbox-overflow", "kind": "after dropped messages the next message on the topic is not delivered alone and whole",
+			"topic": int(topic), "inbox_capacity": capacity, "dropped": extra, "delivered_after": len(after), "first_delivered": show})
+	}
+	st.Cases++
+	st.Distinct++
+	st.Kinds["inbox-overflow"]++
+}
+
 func asmCases(r *sim.Rng, n int, cw *sim.CaseWriter) {
 	nd := newNode()
+	for k := 0; k < 1+n/40; k++ {
+		overflowCase(r, nd, outDirG)
+	}
 	for i := 0; i < n; i++ {
 		// the streams of a connection as the node itself builds them (NewStreams), or stand-alone ones
 		streams := map[lib.Topic]*p2p.VerifStream{}
@@ -371,6 +424,7 @@ func main() {
 	outDir := flag.String("outdir", ".", "output directory")
 	_ = flag.String("replay", "", "replay file (cases regenerate deterministically from the seed)")
 	flag.Parse()
+	outDirG = *outDir
 	r := sim.NewRng(sim.SeedFromEnv())
 	imp := "From V Require Import Bytes Mux."
 	w1 := &sim.CaseWriter{OutDir: *outDir, Name: "c18split", Imports: imp, CaseType: "split_case", MFun: "split_mismatches", VFun: "", PerShard: 40}
